@@ -21,6 +21,44 @@ def _const_bool(e):
     return isinstance(e, ast.Constant) and isinstance(e.value, bool)
 
 
+def _role_names(fn):
+    """Locals of Commissioning renamed after the role they play:
+       A = yield from _find_next(A, B)      A -> low, B -> high
+       while not F: (the outer search loop)  F -> finished"""
+    ren = {}
+    for n in ast.walk(fn):
+        if isinstance(n, ast.Assign) and len(n.targets) == 1 and isinstance(
+                n.targets[0], ast.Name) and isinstance(
+                    n.value, ast.YieldFrom) and isinstance(
+                        n.value.value, ast.Call) and unparse(
+                            n.value.value.func) == "_find_next" and len(
+                                n.value.value.args) == 2 and all(
+                                    isinstance(a, ast.Name)
+                                    for a in n.value.value.args) and \
+                n.value.value.args[0].id == n.targets[0].id:
+            ren[n.targets[0].id] = "low"
+            ren[n.value.value.args[1].id] = "high"
+    flags = {n.test.operand.id for n in ast.walk(fn) if isinstance(
+        n, ast.While) and isinstance(n.test, ast.UnaryOp) and isinstance(
+            n.test.op, ast.Not) and isinstance(n.test.operand, ast.Name)}
+    if len(flags) == 1:
+        ren[flags.pop()] = "finished"
+    ren = {k: v for k, v in ren.items() if k != v}
+    if not ren:
+        return fn
+    taken = {n.id for n in ast.walk(fn) if isinstance(n, ast.Name)} | {
+        a.arg for a in fn.args.args + fn.args.kwonlyargs}
+    if any(v in taken and v not in ren for v in ren.values()) or len(
+            set(ren.values())) != len(ren):
+        return fn
+    from ..inline import acopy
+    fn = acopy(fn)
+    for n in ast.walk(fn):
+        if isinstance(n, ast.Name) and n.id in ren:
+            n.id = ren[n.id]
+    return fn
+
+
 def check(run, repo, world):
     run.explanation = (
         "Decides the structural clauses of C07 on the generator CFGs of "
@@ -38,6 +76,7 @@ def check(run, repo, world):
     ]
     mod = repo.mod(MOD)
     m, fn, _ = world.func(MOD + ".Commissioning")
+    fn = _role_names(fn)
     fn = normalise(fn, world, MOD, primitives=("_find_next", "progress"),
                    aliases="params", lift_values=True)
     cfg = gen_cfg(fn, MOD + ".Commissioning")
@@ -744,7 +783,7 @@ def _check_find_next(run, repo, world, ccfg, cys, cynode):
         run.note("_find_next: `while True` loop read as the tail recursion "
                  "it abbreviates")
         fn = tc
-    fn = normalise(fn, world, MOD, primitives=("_find_next",), aliases="params")
+    fn = normalise(fn, world, MOD, primitives=("_find_next",), aliases=True)
     cfg = gen_cfg(fn, MOD + "._find_next")
     ys = yields_of(cfg, world, MOD)
     F = MOD + "._find_next"
@@ -841,7 +880,7 @@ def _check_find_next(run, repo, world, ccfg, cys, cynode):
     # recursion covers both halves: [low, mid] and [mid+1, high]
     rec = [y for y in ys if y.is_from and y.fn and y.fn[1].name ==
            "_find_next"]
-    run.ob("R-COMM-CLASH", F + "#bisect", len(rec) == 2 and _bisect_ok(rec),
+    run.ob("R-COMM-CLASH", F + "#bisect", len(rec) == 2 and _bisect_ok(rec, fn),
            "the two recursive calls must cover [low, mid] and [mid+1, high]",
            where(mod, fn))
 
@@ -861,10 +900,25 @@ def _byte_lane(e, var):
     return None
 
 
-def _bisect_ok(rec):
-    a = [unparse(x) for x in rec[0].call.args]
-    b = [unparse(x) for x in rec[1].call.args]
-    return a == ["low", "midpoint"] and b == ["midpoint + 1", "high"]
+def _bisect_ok(rec, fn=None):
+    """The two recursive calls cover [low, M] and [M + 1, high] with
+    M = (low + high) // 2 (a local holding it, or the expression itself)."""
+    from .. import astq
+    from ..lanes import Lin
+
+    def canon(e):
+        return unparse(astq.resolve(fn, e)) if fn is not None else unparse(e)
+    a = [canon(x) for x in rec[0].call.args]
+    b = [canon(x) for x in rec[1].call.args]
+    mids = {"(low + high) // 2", "(high + low) // 2", "low + high >> 1",
+            "(low + high) >> 1", "low + (high - low) // 2"}
+    if len(a) != 2 or len(b) != 2 or a[0] != "low" or b[1] != "high":
+        return False
+    m = a[1]
+    if m not in mids and not m.isidentifier():
+        return False
+    return b[0] in ("%s + 1" % m, "(%s) + 1" % m, "1 + %s" % m,
+                    "1 + (%s)" % m)
 
 
 def _next_cmds(cfg, start, ynode):
